@@ -119,6 +119,31 @@ class EvalMixin(CallMixin):
                 self.heap[qual] = v
                 self.heap[key] = v
                 return v
+            if v is NotImplemented and isinstance(ce, (ast.List, ast.Tuple, ast.Dict, ast.Set)) and not getattr(self, "_in_modconst", False):
+                # a module-level table whose entries are not plain constants (handler tuples built with operator.methodcaller, partials, ...):
+                # evaluated once by the interpreter in the module's scope, shared by everything that names it
+                from .interp import Frame, _Signal
+                from .repo import FuncInfo
+
+                key = repo.canon(target)
+                fn = ast.FunctionDef(name="<module>", args=ast.arguments(posonlyargs=[], args=[], kwonlyargs=[], kw_defaults=[], defaults=[]),
+                                     body=[], decorator_list=[], lineno=1)
+                tmp = Frame(FuncInfo(cm.name, fn, cm, None, None), None, fr.depth)
+                tmp.declared = set()
+                self._in_modconst = True
+                n_eff = len(self.effects)
+                n_dec = len(self.decisions)
+                try:
+                    v2 = self.eval(ce, tmp)
+                except _Signal:
+                    v2 = NotImplemented
+                finally:
+                    self._in_modconst = False
+                    del self.effects[n_eff:]
+                if v2 is not NotImplemented and len(self.decisions) == n_dec and not isinstance(v2, Term):
+                    self.heap[qual] = v2
+                    self.heap[key] = v2
+                    return v2
             if v is NotImplemented and isinstance(ce, ast.Call) and not getattr(self, "_in_modconst", False):
                 # NAME = RepoClass(...) / repo_function(...) at module level: built once, shared by everything that names it
                 cq = repo.resolve_expr(cm, ce.func)
